@@ -5,6 +5,6 @@
 cd "$(dirname "$0")"
 for f in claims/*.quick; do
   id=$(basename "$f" .quick)
-  grep -E '#(post|pre|inv-entry|inv-preserved|exit|lemma|loop-assert|vocab|frame|decreases):' "$f" | sort -u > "claims/$id.core"
+  grep -E '#(post|pre|inv-entry|inv-preserved|exit|lemma|loop-assert|vocab|frame|decreases|cut):' "$f" | sort -u > "claims/$id.core"
   echo "$id: $(wc -l < claims/$id.core) core obligations"
 done
